@@ -5,7 +5,7 @@
    of Model/DiffFormat.v that the correspondence run compares with the implementation string for string.
    Strings are lists of code points; 123 / 125 are the braces, so `brace_free s` says no replacement field is left in s. *)
 From Coq Require Import ZArith List Bool String.
-From PV Require Import Lib.PyBase Model.LocaleBase Gen.Locales Model.DiffFormat Proofs.C18Facts.
+From PV Require Import Lib.PyBase Model.LocaleBase Gen.Locales Model.DiffFormat Model.LocaleSession Proofs.C18Facts Proofs.C18Session.
 Import ListNotations.
 Open Scope string_scope.
 Open Scope Z_scope.
@@ -103,3 +103,55 @@ Theorem locale_tokens_total : forall L tok month dow day hour, In L all_locales 
   exists s, token L tok month dow day hour = Ok s /\ s <> [] /\ brace_free s.
 Proof. exact tokens_total_explicit. Qed.
 Print Assumptions locale_tokens_total.
+
+(* ------------------------------------------------------------------------------------------------------------------------------
+   The process-wide default locale (Model/LocaleSession.v): set_locale / get_locale / Locale.load and the `locale is None` defaults of
+   format_diff, in_words and format, as a state machine over whole histories of calls.  `run` is what the correspondence run compares
+   with the implementation (stream `session`: one case = one history executed in one process). *)
+
+(* a set_locale call that raised has not changed the configuration *)
+Theorem failed_set_keeps_configuration : forall st n e, snd (step st (SSet n)) = Raise e -> fst (step st (SSet n)) = st.
+Proof. exact failed_set_keeps_configuration_lemma. Qed.
+Print Assumptions failed_set_keeps_configuration.
+
+(* one that returned has stored exactly its argument, and that name loads *)
+Theorem successful_set_stores : forall st n s, snd (step st (SSet n)) = Ok s -> fst (step st (SSet n)) = n /\ loadable n /\ s = [].
+Proof. exact successful_set_stores_lemma. Qed.
+Print Assumptions successful_set_stores.
+
+(* after any history the configuration is the argument of the last set_locale call whose name loads (else the initial one) *)
+Theorem configuration_is_last_successful_set : forall ops st, final st ops = last_good_set ops st.
+Proof. exact final_is_last_good_set_lemma. Qed.
+Print Assumptions configuration_is_last_successful_set.
+
+(* ... and it can always be loaded: no history leaves a name behind that the next call chokes on *)
+Theorem configuration_always_loadable : forall ops, loadable (final initial ops).
+Proof. exact initial_always_loadable. Qed.
+Print Assumptions configuration_always_loadable.
+
+(* a call without a locale argument is the same call with the configured name; a call with a locale argument (and Locale.load, a
+   transparent cache) gives the same result after every history *)
+Theorem ambient_is_configured : forall st st' o, o <> SGet -> snd (step st o) = snd (step st' (with_loc o st)).
+Proof. exact ambient_is_configured_lemma. Qed.
+Print Assumptions ambient_is_configured.
+
+Theorem result_independent_of_history : forall ops1 ops2 st1 st2 o,
+  state_free o = true -> snd (step (final st1 ops1) o) = snd (step (final st2 ops2) o).
+Proof. exact result_independent_of_history_lemma. Qed.
+Print Assumptions result_independent_of_history.
+
+(* totality with the ambient locale after EVERY history of the process (including rejected set_locale calls) *)
+Theorem ambient_format_total : forall ops d is_now absolute invert,
+  exists s, snd (step (final initial ops) (SFmt None d is_now absolute invert)) = Ok s /\ s <> [] /\ brace_free s.
+Proof. exact initial_format_total. Qed.
+Print Assumptions ambient_format_total.
+
+Theorem ambient_in_words_total : forall ops d us sep, brace_free sep ->
+  exists s, snd (step (final initial ops) (SWords None d us sep)) = Ok s /\ s <> [] /\ brace_free s.
+Proof. exact initial_in_words_total. Qed.
+Print Assumptions ambient_in_words_total.
+
+Theorem ambient_token_total : forall ops tok month dow day hour, 0 <= tok <= 10 -> 1 <= month <= 12 -> 0 <= dow <= 6 ->
+  exists s, snd (step (final initial ops) (STok None tok month dow day hour)) = Ok s /\ s <> [] /\ brace_free s.
+Proof. exact initial_token_total. Qed.
+Print Assumptions ambient_token_total.
